@@ -1023,6 +1023,22 @@ def window_family(run: Run):
                     hist = [("R", p, kind, 1, 0, 0, 0) for p in ids] + [("B", n)]
                     hist += [("R", p, kind, 1, resent, 0, 1) for p in ids]
                     items.append(tuple(hist))
+    # aliasing ids: a reliable packet with id a, ONE other reliable packet whose id is a + delta, then a is retransmitted.  delta runs over every
+    # power of two up to 2^24, their neighbours, and the decimal window sizes: whatever index structure backs the dedupe window (ring, hash
+    # slots, bitmask, modulus), two ids that collide in it must still be told apart -- one packet in between is far inside any window.
+    deltas = sorted({d for k in range(0, 25) for d in (2 ** k - 1, 2 ** k, 2 ** k + 1) if d > 0} | {base - 1, base, base + 1, 10 * base, 999, 1000, 1001, 10000})
+    n_alias = 0
+    for a in (1, 5):
+        for delta in deltas:
+            for kind in (("chat",) if run.tier == "quick" else ("chat", "ping")):
+                for order in (0, 1):  # which of the two ids arrives first
+                    first, second = (a, a + delta) if order == 0 else (a + delta, a)
+                    hist = [("R", first, kind, 1, 0, 0, 0), ("R", second, kind, 1, 0, 0, 0),
+                            ("R", first, kind, 1, 1, 0, 1), ("R", second, kind, 1, 1, 0, 1)]
+                    items.append(tuple(hist))
+                    n_alias += 1
+    run.coverage_extra["alias_id_scenarios"] = n_alias
+    run.coverage_extra["alias_id_deltas"] = deltas
     for d in pmap(_window_case, items, run.jobs):
         run.merge(d)
     run.coverage_extra["window_scenarios"] = len(items)
